@@ -30,7 +30,7 @@ EXHAUSTIVE = {"quick": False, "thorough": False}
 ASSUMPTIONS = ["the only exceptions able to leave Splitter.split are ParserStateException/RegexMismatchException "
                "(every BlockAbortedException is caught per block) - by reading splitter.py:261-320"]
 PARTIAL = ["RecursionError / MemoryError are interpreter behaviour: exercised with size-scaled inputs, not proved"]
-CASE_TIMEOUT_S = 60
+CASE_TIMEOUT_S = 30
 
 
 def corpus():
@@ -88,6 +88,18 @@ def _scaled(tier):
         yield ('@a{k, f = "' + "{" * min(n, 10000) + '"' + "}" * min(n, 10000) + '"}')
         yield ",=" * n
         yield "@a{k," + "f=1," * min(n, 20000) + "}"
+    # long runs that a backtracking regex or a quadratic scan would choke on ("no hang"): an '@' followed by many word
+    # characters / blanks that is NOT a block start, runs of backslashes, many '@' in a row
+    for n in (40, 5000):
+        for tail in ("", "(", "-{", " \t x"):
+            yield "@" + "a" * n + tail
+            yield "@" + "a1_" * n + tail
+            yield "text @" + "Ab" * n + tail + "\n@a{k}"
+        yield "@a" + " " * n + "x"
+        yield "@a" + " \t" * n + "\n{"
+        yield "x@" * n + "{"
+        yield "\\" * n + "{" + "\\" * n + "}"
+        yield "@a{k, f = " + '"' * n
 
 
 # whole blocks whose keys collide exactly or only up to letter case, with references in both spellings:
